@@ -25,6 +25,12 @@ chk.extra['rule'] = (
     'option is left to the force field and the force field defines variables; histories (one processor object over '
     '2-3 molecules with different force-field variables) count if bonds are emitted and the resolved separation '
     'differs between applications; region cases count if regions overlap and the pair shares one; '
+    'boundary stream: the same molecules with 1-3 legal boundary values (minimum force = base / just below / 0, base 0, upper 0, '
+    'lower = upper, separation 0 or from the force field, empty / one-atom selection, one residue, chain None and empty string, '
+    'touching / nested / reversed / negative regions, coincident atoms); shared stream: 2-3 processors sharing one criterion '
+    '(and selector) object applied interleaved; command line: random option values through the add_argument calls and the '
+    'three statements extracted from bin/martinize2 (count if a region criterion with a mixed truth table or a ValueError '
+    'results), int() and region-rendering streams, real in-process martinize2 runs on a two-chain peptide; '
     'distinct = distinct protocol line')
 import c15_cli
 CLI_X, CLI_ERR = None, None
@@ -32,7 +38,7 @@ try:
     CLI_X = c15_cli.extract(REPO)
 except Exception as e:  # noqa
     CLI_ERR = '%s: %s' % (type(e).__name__, e)
-chk.lean(['VermouthProps.C15', 'VermouthProps.C15_Cli', 'VermouthProps.C15_Num'], 'driver_c15',
+chk.lean(['VermouthProps.C15', 'VermouthProps.C15_Cli', 'VermouthProps.C15_CliTable', 'VermouthProps.C15_Num'], 'driver_c15',
          generated={'C15Cli.lean': CLI_X['lean']} if CLI_X else None)
 if CLI_ERR:
     chk.broken.append(('extract:martinize2-elastic-options', CLI_ERR))
@@ -48,6 +54,11 @@ chk.assumptions += [
     'the decayed constant base*exp(-a (d-lo)^p) enters the model as an input table squared distance -> rational; its '
     'value is checked against the documented formula by the numeric oracle only',
     'cases with a decayed constant within 1e-9 (relative) of minimum_force, or NaN, are excluded and counted',
+    'where no decay can apply (decay factor 0; d = lower; d < lower with an odd integer power; base >= 0) the constant must be '
+    'the base constant bit for bit: assumes exp(x) >= 1.0 for x >= 0 in the C library and that the float sign of d - lower is '
+    'the exact one (checked per case)',
+    'command line: option strings are ASCII; the conversion type=float is Python\'s; argparse is the real one',
+    'rendered length = str(parameter), the expression of vermouth/gmx/itp.py (compared with a written ITP in one real run)',
 ]
 
 import numpy as np
